@@ -121,7 +121,7 @@ class PartyPickle:
         return self._with(pickle.loads, *a, **k)
 
 
-def run_batch(ctx, m, t, no_prss, cases, case_coro, seed, want_log=False, arity3=ARITY):
+def run_batch(ctx, m, t, no_prss, cases, case_coro, seed, want_log=False, arity3=ARITY, extra=()):
     """One pass: cases run in order in one simulator; at the first case that does not complete (hang / escaped
     exception) that simulator is discarded and the rest continues in a fresh one."""
     from lib.sim import Sim
@@ -131,7 +131,7 @@ def run_batch(ctx, m, t, no_prss, cases, case_coro, seed, want_log=False, arity3
     i = 0
     restarts = 0
     while i < len(cases):
-        sim = Sim(m, t, no_prss=no_prss, seed=seed, track_tasks=False, log_messages=want_log)
+        sim = Sim(m, t, no_prss=no_prss, seed=seed, track_tasks=False, log_messages=want_log, extra=tuple(extra))
         for k_ in range(m):       # arrays over extension fields are pickled: resolve classes in that party's module copy
             sim.mods[k_]['mpyc.runtime'].pickle = PartyPickle(sim.mods[k_])
         errs = []
@@ -188,7 +188,7 @@ def run_batch(ctx, m, t, no_prss, cases, case_coro, seed, want_log=False, arity3
     return results, logs, incomplete
 
 
-def run_cases(ctx, m, t, no_prss, cases, case_coro, seed, want_log=False, isolated=()):
+def run_cases(ctx, m, t, no_prss, cases, case_coro, seed, want_log=False, isolated=(), extra=()):
     """cases: list of JSON-able case descriptions.  Returns per-case results: value | ('EXC', name) | ('HANG', how) |
     ('DIVERGE', per-party values).  Cases whose index is in `isolated` (predicted not to terminate) run alone in their own
     simulator.  Every case that did not complete (HANG / escaped EXC) in a shared simulator is re-run once alone in a
@@ -196,12 +196,12 @@ def run_cases(ctx, m, t, no_prss, cases, case_coro, seed, want_log=False, isolat
     isolated = set(isolated)
     shared = [j for j in range(len(cases)) if j not in isolated]
     results = [None] * len(cases)
-    res, logs, inc = run_batch(ctx, m, t, no_prss, [cases[j] for j in shared], case_coro, seed, want_log)
+    res, logs, inc = run_batch(ctx, m, t, no_prss, [cases[j] for j in shared], case_coro, seed, want_log, extra=extra)
     for j, r in zip(shared, res):
         results[j] = r
     redo = [] if want_log else [shared[q] for q in inc] + [j for j in shared if isinstance(results[j], tuple) and results[j][:1] == ('DIVERGE',)]
     for j in sorted(isolated) + redo:
-        results[j] = run_batch(ctx, m, t, no_prss, [cases[j]], case_coro, seed)[0][0]
+        results[j] = run_batch(ctx, m, t, no_prss, [cases[j]], case_coro, seed, extra=extra)[0][0]
     if redo:
         ctx.extra['cases_rerun_in_isolation'] = ctx.extra.get('cases_rerun_in_isolation', 0) + len(redo)
     ctx.extra['max_rounds_per_case'] = ROUND_STATS['max_rounds_per_case']
@@ -1252,13 +1252,17 @@ def run(ctx):
     thresha_ext_checks(ctx, np)
     import mpyc.finfields as FF
     ctx.log('thresha np_* vs list versions: %d exact agreements' % ctx.extra.get('thresha_exact_agreements', 0))
-    configs = [(1, 0, False, ctx.n(6, 20)), (3, 1, False, ctx.n(3, 10)), (3, 1, True, ctx.n(2, 6)), (1, 0, True, ctx.n(2, 6))]
+    configs = [(1, 0, False, ctx.n(6, 20)), (3, 1, False, ctx.n(3, 10)), (3, 1, True, ctx.n(2, 6)), (1, 0, True, ctx.n(2, 6)),
+               # option --mix32-64bit: arrays are sent as fixed-width byte strings and opened arrays rebuilt by field.array()
+               (3, 1, False, ctx.n(1, 4), ('--mix32-64bit',)), (3, 1, True, ctx.n(1, 2), ('--mix32-64bit',))]
     model_items = []
-    for (m, t, no_prss, per_op) in configs:
+    for cf in configs:
+        (m, t, no_prss, per_op) = cf[:4]
+        extra = cf[4] if len(cf) > 4 else ()
         t1 = time.time()
         cases = gen_cases(ctx, T, per_op)
-        res = run_cases(ctx, m, t, no_prss, cases, make_case_coro(T), seed=ctx.seed + 13 * m + no_prss)
-        cfg = 'm=%d t=%d%s' % (m, t, ' no-prss' if no_prss else '')
+        res = run_cases(ctx, m, t, no_prss, cases, make_case_coro(T), seed=ctx.seed + 13 * m + no_prss, extra=extra)
+        cfg = 'm=%d t=%d%s%s' % (m, t, ' no-prss' if no_prss else '', ' ' + ' '.join(extra) if extra else '')
         for case, got in zip(cases, res):
             judge_case(ctx, T, case, got, cfg, model_items)
         ctx.log('%s: %d cases in %.1fs' % (cfg, len(cases), time.time() - t1))
